@@ -24,6 +24,9 @@ type Obligation struct {
 	Expect string // "unsat" normally; "sat" for vacuity/canary
 	D      *Decls
 	Note   string
+	// for replay on the real code: the entry values of the parameters (by name) and, for postconditions, the result terms
+	Params  map[string]*Term
+	Results []*Term
 }
 
 type collector struct {
@@ -45,6 +48,8 @@ type wrec struct {
 }
 
 type Verifier struct {
+	curParams    map[string]*Term
+	curResults   []*Term
 	deferredGU   []deferredGhost
 	P            *Program
 	C            *Contracts
